@@ -12,6 +12,7 @@ import (
 	"strings"
 
 	"cosmossdk.io/math"
+	sdk "github.com/cosmos/cosmos-sdk/types"
 	banktypes "github.com/cosmos/cosmos-sdk/x/bank/types"
 
 	"github.com/terra-money/alliance/x/alliance/bindings"
@@ -124,9 +125,43 @@ func (e *Env) queryLines(st *Step, all bool) []string {
 				d, resp.RewardStartTime, resp.LastRewardChangeTime, a.Start, a.Last)
 		}
 	}
+	dr := func(rs []types.DelegationResponse, withDel bool) string {
+		var xs []string
+		for _, x := range rs {
+			row := fmt.Sprintf("%d %d %s %s", e.valID(mustVal(x.Delegation.ValidatorAddress)), denomID(x.Delegation.Denom), x.Delegation.Shares.BigInt(), x.Balance.Amount)
+			if withDel {
+				row = fmt.Sprintf("%d %s", e.acctID(sdk.MustAccAddressFromBech32(x.Delegation.DelegatorAddress)), row)
+			}
+			xs = append(xs, row)
+		}
+		return rows(xs)
+	}
+	guard("alldels", func() (string, error) {
+		r, err := qs.AllAlliancesDelegations(cctx, &types.QueryAllAlliancesDelegationsRequest{})
+		if err != nil {
+			return "", err
+		}
+		return dr(r.Delegations, true), nil
+	})
 	for ui := range e.Users {
 		u := AccUserBase + ui
 		addr := e.user(u).String()
+		guard(fmt.Sprintf("dels %d", u), func() (string, error) {
+			r, err := qs.AlliancesDelegation(cctx, &types.QueryAlliancesDelegationsRequest{DelegatorAddr: addr})
+			if err != nil {
+				return "", err
+			}
+			return dr(r.Delegations, false), nil
+		})
+		for v := range e.Vals {
+			guard(fmt.Sprintf("delsv %d %d", u, v), func() (string, error) {
+				r, err := qs.AlliancesDelegationByValidator(cctx, &types.QueryAlliancesDelegationByValidatorRequest{DelegatorAddr: addr, ValidatorAddr: e.Vals[v].String()})
+				if err != nil {
+					return "", err
+				}
+				return dr(r.Delegations, false), nil
+			})
+		}
 		guard(fmt.Sprintf("unbd %d", u), func() (string, error) {
 			r, err := qs.AllianceUnbondingsByDelegator(cctx, &types.QueryAllianceUnbondingsByDelegatorRequest{DelegatorAddr: addr})
 			if err != nil {
